@@ -13,6 +13,9 @@ use serde_json::Value;
 pub enum HOp {
     Sleep,
     Wake,
+    /// sleep() / wake() whose very first low-level operation fails (nothing reaches the controller)
+    FailedSleep,
+    FailedWake,
     Pixel { x: u16, y: u16, seed: u32 },
     Fill { seed: u32 },
     Orient(Orient),
@@ -70,6 +73,7 @@ pub fn check(c: &HistCase, info: &mut CaseInfo) -> Result<(), String> {
     };
     spacing(&w.borrow(), "init")?;
     let (mut seen_sleep, mut transitions, mut repeats) = (false, 0, 0);
+    let mut failed_calls = 0;
     let mut orient = cfg.orient;
     for (i, op) in c.ops.iter().enumerate() {
         let when = format!("step {} {:?}", i, op);
@@ -105,6 +109,24 @@ pub fn check(c: &HistCase, info: &mut CaseInfo) -> Result<(), String> {
                 }
                 spacing(&wb, &when)?;
             }
+            HOp::FailedSleep | HOp::FailedWake => {
+                let (ops0, n0) = {
+                    let mut wb = w.borrow_mut();
+                    let o = wb.ops;
+                    wb.fail_at = vec![o];
+                    (o, wb.panel.sleep_log.len())
+                };
+                let r = if matches!(op, HOp::FailedSleep) { d.sleep() } else { d.wake() };
+                w.borrow_mut().fail_at.clear();
+                if r.is_ok() {
+                    return Err(format!("{}: the first bus operation failed but the call returned Ok", when));
+                }
+                let wb = w.borrow();
+                if wb.panel.sleep_log.len() != n0 {
+                    return Err(format!("{}: a sleep command reached the controller although operation {} failed", when, ops0));
+                }
+                failed_calls += 1;
+            }
             HOp::Pixel { x, y, seed } => {
                 let (lw, lh) = cfg.logical_size(orient);
                 d.set_pixel((*x as u32 % lw) as u16, (*y as u32 % lh) as u16, colour_of(*seed, 0, d.bits())).map_err(|e| format!("{}: {:?}", when, e))?;
@@ -131,6 +153,9 @@ pub fn check(c: &HistCase, info: &mut CaseInfo) -> Result<(), String> {
     if repeats > 0 {
         info.label("repeated-sleep-or-wake");
     }
+    if failed_calls > 0 {
+        info.label("failed-sleep-or-wake-in-history");
+    }
     info.label(cfg.transport.label());
     if cfg.reset_pin {
         info.label("reset-pin");
@@ -144,6 +169,8 @@ pub fn strategy() -> BoxedStrategy<HistCase> {
     let op = prop_oneof![
         4 => Just(HOp::Sleep),
         4 => Just(HOp::Wake),
+        1 => Just(HOp::FailedSleep),
+        1 => Just(HOp::FailedWake),
         2 => (any::<u16>(), any::<u16>(), any::<u32>()).prop_map(|(x, y, seed)| HOp::Pixel { x, y, seed }),
         1 => any::<u32>().prop_map(|seed| HOp::Fill { seed }),
         2 => gen::orient().prop_map(HOp::Orient),
@@ -179,7 +206,7 @@ pub fn run(ctx: &Ctx) -> Report {
     rep.assumptions = vec!["virtual clock advanced only by the injected DelayNs; bus operations take no time (worst case for spacing)".into()];
     let mut sec = Section::new(
         &format!("histories[{}]", ctx.variant),
-        "init of any model on any transport (with or without reset pin), then 0..24 operations over {sleep, wake, set_pixel, fill_solid, set_orientation, scroll region/offset, tearing, query}; after every step: reference flag == is_sleeping() == sleep state of the simulated controller; every 0x10/0x11 is followed by >= 120 ms before the call returns and before the next of them; non-trivial = history has a sleep/wake transition or a repeated sleep/wake",
+        "init of any model on any transport (with or without reset pin), then 0..24 operations over {sleep, wake, sleep/wake whose first bus operation fails, set_pixel, fill_solid, set_orientation, scroll region/offset, tearing, query}; after every step: reference flag == is_sleeping() == sleep state of the simulated controller; every 0x10/0x11 is followed by >= 120 ms before the call returns and before the next of them; non-trivial = history has a sleep/wake transition or a repeated sleep/wake",
     );
     run_generated(&mut sec, ctx.seed, ctx.cases(60_000, 2_000_000), ctx.workers, strategy, check, sig);
     rep.sections.push(sec);
